@@ -7,6 +7,8 @@ import (
 	"go.dedis.ch/kyber/v4"
 	"go.dedis.ch/kyber/v4/share"
 	rdkg "go.dedis.ch/kyber/v4/share/dkg/rabin"
+	rvss "go.dedis.ch/kyber/v4/share/vss/rabin"
+	"go.dedis.ch/kyber/v4/sign/schnorr"
 
 	"verif/e2/hx"
 )
@@ -35,6 +37,9 @@ func rabScenarios(tier string) []hx.Scenario {
 				if n-t >= 1 {
 					fs = append(fs, "absent:0", fmt.Sprintf("absent:%d", n-1), fmt.Sprintf("garbled:0>%d", n-1), "garbled:1>0")
 				}
+				if n-t >= 1 && n >= 4 {
+					fs = append(fs, "cheat:0>1", fmt.Sprintf("cheat:%d>0", n-1))
+				}
 				for _, f := range fs {
 					c := rabCfg{n, t, f, o}
 					out = append(out, hx.Scenario{Name: "rabin-dkg", Cfg: c.String(), Run: func(x *hx.Ctx) { rabDKG(x, c) }})
@@ -43,6 +48,75 @@ func rabScenarios(tier string) []hx.Scenario {
 		}
 	}
 	return out
+}
+
+// rabCheatDelivery: the complaint against the cheating dealer and the dealer's INVALID justification reach the honest
+// nodes at different points of the response phase: even-numbered nodes see them before any approval of that dealer,
+// odd-numbered nodes after all of them. Whatever the order, every honest node must end with the same QUAL.
+func rabCheatDelivery(x *hx.Ctx, s rdkg.Suite, c rabCfg, gens []*rdkg.DistKeyGenerator, xs []kyber.Scalar, resps []*rdkg.Response, ck, cj int, badDeal *rvss.Deal) {
+	n := c.n
+	var complaint *rdkg.Response
+	var about, other []*rdkg.Response // approvals concerning the cheating dealer / everything else
+	for _, r := range resps {
+		switch {
+		case int(r.Index) == ck && int(r.Response.Index) == cj:
+			complaint = r
+		case int(r.Index) == ck:
+			about = append(about, r)
+		default:
+			other = append(other, r)
+		}
+	}
+	if !x.Require("the victim's complaint exists", complaint != nil) {
+		return
+	}
+	// the invalid justification: the share the victim really received, which is off the committed polynomial
+	jb := &rvss.Justification{SessionID: complaint.Response.SessionID, Index: uint32(cj), Deal: badDeal}
+	sig, err := schnorr.Sign(s, xs[ck], jb.Hash(s))
+	x.NoErr("sign the invalid justification", err)
+	jb.Signature = sig
+	bad := &rdkg.Justification{Index: uint32(ck), Justification: jb}
+	deliver := func(i int, r *rdkg.Response) {
+		if int(r.Response.Index) == i {
+			return
+		}
+		_, _ = gens[i].ProcessResponse(rabCopy(r))
+	}
+	for i := 0; i < n; i++ {
+		if i == ck {
+			for _, r := range append(append([]*rdkg.Response{}, about...), other...) {
+				deliver(i, r)
+			}
+			_, _ = gens[i].ProcessResponse(rabCopy(complaint))
+			continue
+		}
+		early := i%2 == 0
+		if early && i != cj {
+			_, err := gens[i].ProcessResponse(rabCopy(complaint))
+			x.NoErr(fmt.Sprintf("complaint accepted by %d (before the approvals)", i), err)
+			x.Err(fmt.Sprintf("node %d refuses the invalid justification (seen before the approvals)", i), gens[i].ProcessJustification(bad))
+		}
+		for _, r := range pOrder(about, c.order, i) {
+			deliver(i, r)
+		}
+		for _, r := range pOrder(other, c.order, i) {
+			deliver(i, r)
+		}
+		if !early || i == cj {
+			if i != cj {
+				_, err := gens[i].ProcessResponse(rabCopy(complaint))
+				x.NoErr(fmt.Sprintf("complaint accepted by %d (after the approvals)", i), err)
+			}
+			x.Err(fmt.Sprintf("node %d refuses the invalid justification (seen after the approvals)", i), gens[i].ProcessJustification(bad))
+		}
+	}
+}
+
+// every node receives its own copy of a broadcast message (the library stores the pointer it is handed and later flips
+// Approved in place when a justification arrives: sharing one object between nodes would be an artefact of the harness)
+func rabCopy(r *rdkg.Response) *rdkg.Response {
+	in := *r.Response
+	return &rdkg.Response{Index: r.Index, Response: &in}
 }
 
 func rabQual(q []uint32) string {
@@ -74,6 +148,9 @@ func rabDKG(x *hx.Ctx, c rabCfg) {
 	absent, gk, gj := -1, -1, -1
 	fmt.Sscanf(c.fault, "absent:%d", &absent)
 	fmt.Sscanf(c.fault, "garbled:%d>%d", &gk, &gj)
+	ck, cj := -1, -1 // cheating dealer ck hands victim cj a share off the committed polynomial and answers the complaint with an invalid justification
+	fmt.Sscanf(c.fault, "cheat:%d>%d", &ck, &cj)
+	var badDeal *rvss.Deal
 	ord := pOrder(hx.Seq(n), c.order, 1)
 	// deals
 	var resps []*rdkg.Response
@@ -89,6 +166,24 @@ func rabDKG(x *hx.Ctx, c rabCfg) {
 		for _, j := range ord {
 			d, ok := deals[j]
 			if !ok {
+				continue
+			}
+			if i == ck && j == cj {
+				dl := gens[i].VerifDealer()
+				pd, err := dl.PlaintextDeal(j)
+				x.NoErr("PlaintextDeal", err)
+				bd := *pd
+				sh := *pd.SecShare
+				sh.V = s.Scalar().Add(pd.SecShare.V, s.Scalar().Pick(s.RandomStream()))
+				bd.SecShare = &sh
+				badDeal = &bd
+				enc, err := dl.VerifEncryptDeal(j, &bd)
+				x.NoErr("VerifEncryptDeal", err)
+				r, err := gens[j].ProcessDeal(&rdkg.Deal{Index: d.Index, Deal: enc})
+				if x.NoErr(fmt.Sprintf("bad deal of %d processed by %d", i, j), err) {
+					x.Require(fmt.Sprintf("%d complains about the deal of %d", j, i), !r.Response.Approved)
+					resps = append(resps, r)
+				}
 				continue
 			}
 			if i == gk && j == gj {
@@ -109,13 +204,17 @@ func rabDKG(x *hx.Ctx, c rabCfg) {
 			x.Err(fmt.Sprintf("deal of %d delivered twice to %d", i, j), err)
 		}
 	}
+	if ck >= 0 {
+		rabCheatDelivery(x, s, c, gens, xs, resps, ck, cj, badDeal)
+		resps = nil
+	}
 	// responses to everybody but their author
 	for _, r := range pOrder(resps, c.order, 2) {
 		for _, i := range ord {
 			if r.Response.Index == uint32(i) {
 				continue
 			}
-			j, err := gens[i].ProcessResponse(r)
+			j, err := gens[i].ProcessResponse(rabCopy(r))
 			if r.Index == uint32(gk) && i == gj || int(r.Index) == absent {
 				continue // the receiver never got that dealer's deal: whatever it answers is recorded by the final agreement
 			}
@@ -158,6 +257,9 @@ func rabDKG(x *hx.Ctx, c rabCfg) {
 	var shares []*share.PriShare
 	done := 0
 	for i := 0; i < n; i++ {
+		if i == ck {
+			continue // the cheating participant's own view is not part of the agreement among honest participants
+		}
 		k, err := gens[i].DistKeyShare()
 		x.Outcome(fmt.Sprintf("node %d completes", i), err == nil)
 		if c.fault == "none" {
@@ -186,6 +288,16 @@ func rabDKG(x *hx.Ctx, c rabCfg) {
 	if c.fault == "none" {
 		x.Require("everybody completes", done == n)
 		x.Require("QUAL = everybody", refQ == fmt.Sprint(hx.Seq(n)), refQ)
+	}
+	if ck >= 0 && ref != nil {
+		for i := 0; i < n; i++ {
+			if i == ck {
+				continue
+			}
+			for _, q := range gens[i].QUAL() {
+				x.Require(fmt.Sprintf("node %d: a dealer that answered a complaint with an invalid justification is not in QUAL", i), int(q) != ck)
+			}
+		}
 	}
 	if absent >= 0 && ref != nil {
 		for _, q := range gens[(absent+1)%n].QUAL() {
